@@ -291,33 +291,48 @@ Proof.
   destruct (negb (fst b =? snd b)); cbn [List.length]; lia.
 Qed.
 
-(* what the checks amount to: the loop over the "missing" bounds can never
-   run (n_missing_bounds <= 0 whenever it is reached), so the test is just
-   "as many ranges as vectors, or as many NON-TRIVIAL ranges as vectors" *)
+Definition trivial_range (b : Z * Z) : Prop := fst b = snd b.
+
+Lemma padding_loop_spec (rest : bounds) : padding_loop rest = Ok tt <-> Forall trivial_range rest.
+Proof.
+  induction rest as [|r tl IH]; cbn [padding_loop].
+  - split; [constructor|reflexivity].
+  - destruct (negb (fst r =? snd r)) eqn:E.
+    + split; [discriminate|]. intros H. inversion H as [|? ? Hr _]; subst. unfold trivial_range in Hr. lia.
+    + rewrite IH. split; intros H.
+      * constructor; [unfold trivial_range; lia|exact H].
+      * now inversion H.
+Qed.
+
+Lemma padding_loop_err (rest : bounds) : padding_loop rest <> Ok tt -> padding_loop rest = Err ELattice.
+Proof.
+  induction rest as [|r tl IH]; cbn [padding_loop]; intros H; [now elim H|].
+  destruct (negb (fst r =? snd r)); [reflexivity|now apply IH].
+Qed.
+
+(* what the (repaired) checks amount to: at least one range per base vector,
+   and the ranges beyond the lattice dimensions are one-point ranges; the
+   leading ranges - the lattice's own dimensions - may be anything *)
 Theorem dimension_checks_spec (nvec : nat) (bs : bounds) :
   dimension_checks nvec bs = Ok tt <->
-  (nvec = List.length bs \/ Z.of_nat nvec = dims bs).
+  ((nvec <= List.length bs)%nat /\ Forall trivial_range (skipn nvec bs)).
 Proof.
-  unfold dimension_checks. pose proof (dims_le_length bs) as Hd.
-  destruct (Nat.eqb nvec (List.length bs)) eqn:E1.
-  - apply Nat.eqb_eq in E1. split; auto.
-  - apply Nat.eqb_neq in E1.
-    destruct (negb (Z.of_nat nvec =? dims bs)) eqn:E2.
-    + split; [discriminate|]. intros [H|H]; [contradiction|lia].
-    + assert (H : Z.of_nat nvec = dims bs) by lia.
-      replace (Z.to_nat (Z.of_nat nvec - Z.of_nat (List.length bs))) with 0%nat by lia.
-      cbn [missing_bounds_loop]. split; auto.
+  unfold dimension_checks. destruct (Nat.ltb (List.length bs) nvec) eqn:E.
+  - apply Nat.ltb_lt in E. split; [discriminate|]. intros [H _]. lia.
+  - apply Nat.ltb_ge in E. rewrite padding_loop_spec. tauto.
 Qed.
 
 Theorem dimension_checks_err (nvec : nat) (bs : bounds) :
   dimension_checks nvec bs <> Ok tt -> dimension_checks nvec bs = Err ELattice.
 Proof.
-  unfold dimension_checks. pose proof (dims_le_length bs) as Hd.
-  destruct (Nat.eqb nvec (List.length bs)) eqn:E1; [intros H; now elim H|].
-  apply Nat.eqb_neq in E1.
-  destruct (negb (Z.of_nat nvec =? dims bs)) eqn:E2; [reflexivity|].
-  replace (Z.to_nat (Z.of_nat nvec - Z.of_nat (List.length bs))) with 0%nat by lia.
-  intros H; now elim H.
+  unfold dimension_checks. destruct (Nat.ltb (List.length bs) nvec); [reflexivity|].
+  apply padding_loop_err.
+Qed.
+
+(* as many ranges as vectors: always accepted, whatever the ranges *)
+Corollary dimension_checks_same_length (bs : bounds) : dimension_checks (List.length bs) bs = Ok tt.
+Proof.
+  apply dimension_checks_spec. split; [lia|]. rewrite skipn_all. constructor.
 Qed.
 
 (* ------------------------------------------------------------------------ *)
